@@ -240,22 +240,22 @@ SCENARIOS = dict(
     C01=dict(quick=['gauss', 'two_split', 'wrap_net', 'half', 'g3_pool_s', 'plateau', 'nlb',
                     'funnel_net', 'ring_net', 'ring_split_net:resume', 'const:resume',
                     'wrap_pool_s:resume', 'g5:resume', 'net2_tanh:resume', 'cross_split:resume',
-                    'empty:resume', 'gauss_stale:resume'],
+                    'empty:resume', 'gauss_stale:resume', 'empty2:resume'],
              thorough=['gauss', 'gauss_net', 'two', 'ring_net', 'half', 'plateau', 'wrap',
                        'wrap_net', 'g3_pool_s', 'two_pool_s', 'b7_update', 'blob_two_obj', 'b1',
                        'funnel_net', 'funnel', 'nlb', 'nlb_ring', 'empty', 'two_split', 'ring_split_net',
                        'const', 'nuisance3_net', 'wrap_pool_s', 'gauss:resume3', 'half:resume3',
-                       'plateau:resume3', 'const:resume3', 'g5', 'net2_tanh']),
+                       'plateau:resume3', 'const:resume3', 'g5', 'net2_tanh', 'empty2:resume']),
     C02=dict(quick=['gauss_d', 'half', 'gauss_t', 'wrap_net', 'wrap_net:slices',
                     'two_split:resume/0/2+resume/1/2+slices',
                     'const:resume',
                     'funnel_net:resume/0/2+resume/1/2+nshell',
-                    'empty:resume/0/2+resume/1/2+nshell', 'enlarge25:resume'],
+                    'empty:resume/0/2+resume/1/2+nshell', 'enlarge25:resume', 'empty2_d:resume'],
              thorough=['gauss', 'gauss_t', 'gauss_d', 'gauss_net:resume+nshell', 'two', 'ring_net', 'half',
                        'plateau', 'wrap_net', 'g3_pool_s', 'b7_update', 'b1', 'blob_f32_inplace',
                        'nlb', 'funnel_net', 'empty', 'empty_d:resume+toggle/0/2+toggle/1/2+nshell',
                        'two_split', 'ring_split_net:resume+nshell', 'const', 'g5', 'net2_tanh:resume+nshell',
-                       'enlarge25:resume+nshell']),
+                       'enlarge25:resume+nshell', 'empty2_d:resume+nshell']),
     C03=dict(quick=['blob_float', 'blob_int_vec', 'blob_two_obj', 'blob_array_pool',
                     'blob_struct_dictfn', 'blob_f32_inplace', 'blob_float_b1', 'blob_two_b2_vec',
                     'vec_pool:resume'],
@@ -286,12 +286,13 @@ SCENARIOS = dict(
                        'two', 'nofile', 'blob_two_obj', 'nuisance', 'nuisance3_net', 'half', 'g3_pool_s',
                        'wrap_pool_s']),
     C12=dict(quick=['gauss_t', 'gauss_d', 'wrap_net', 'blob_two_obj', 'empty_d:nshell',
-                    'enlarge25:nshell'],
+                    'enlarge25:nshell', 'empty2_d:nshell'],
              thorough=['gauss', 'gauss_t', 'gauss_d', 'b7_update',
                        'b1:toggle-resume/0/2+toggle-resume/1/2+nshell', 'two', 'half', 'wrap_net',
                        'blob_float', 'blob_two_obj',
                        'gauss_net:toggle-resume/0/2+toggle-resume/1/2+nshell', 'empty', 'empty_d',
-                       'enlarge25:toggle-resume/0/2+toggle-resume/1/2+nshell']),
+                       'enlarge25:toggle-resume/0/2+toggle-resume/1/2+nshell',
+                       'empty2_d:nshell', 'empty2:nshell']),
 )
 
 LEVEL = 'model_checking'
@@ -580,6 +581,20 @@ def _checkpoints_job(prop, scn_dict):
         try:
             s = scn.build(filepath=path, resume=False)
             s.run(**scn.run_args())
+        except (smc.Hang, core.Timeout, core.Inconclusive):
+            raise
+        except Exception as e:
+            # the library raised in a plain uninterrupted run that writes checkpoints: reported like
+            # any other raising action; the checkpoints completed so far are still examined
+            import traceback
+            tb = traceback.extract_tb(e.__traceback__)
+            site = next(('{}:{}'.format(os.path.basename(f.filename), f.name) for f in reversed(tb)
+                         if os.sep + 'nautilus' + os.sep in f.filename), '?')
+            out.append(Violation(
+                prop, 'exception:checkpointed-run:{}:{}'.format(type(e).__name__, site),
+                'scenario {}: an uninterrupted run() writing checkpoints raised {}: {}'.format(
+                    scn.name, type(e).__name__, str(e)[:300]),
+                dict(kind='checkpoints', scenario=dict(scn), op=-1)))
         finally:
             for k, v in origs.items():
                 setattr(Sampler, k, v)
